@@ -4,10 +4,13 @@ prop="$1"; k="$2"; shift 2
 src=/tmp/seed-$prop/out
 dst=/verif/seeded/$prop-$k
 mkdir -p "$dst"
-cp "$src/mutant$k.diff" "$dst/patch.diff"
-cp "$src/demo$k.py" "$dst/demo.py"
+if [ -f "$src/mutant$k.diff" ]; then
+  cp "$src/mutant$k.diff" "$dst/patch.diff"
+  cp "$src/demo$k.py" "$dst/demo.py"
+  cp "$src/meta$k.json" "$dst/agent_meta.json"
+fi
 /verif/tools/seedtest.sh "$dst/patch.diff" "$dst/demo.py" "$@" > "$dst/results.txt" 2>&1
-python3 - "$src/meta$k.json" "$dst" "$prop" "$@" <<'PY'
+python3 - "$dst/agent_meta.json" "$dst" "$prop" "$@" <<'PY'
 import json,sys,re
 meta=json.load(open(sys.argv[1])); dst=sys.argv[2]; prop=sys.argv[3]; checks=sys.argv[4:]
 res=open(dst+'/results.txt').read()
